@@ -143,7 +143,10 @@ func (e *e2e) negotiation(textFams string) (om, omdup, pb, pbsame int) {
 				list = append(list, mf)
 			}
 			sort.Slice(list, func(i, j int) bool { return list[i].GetName() < list[j].GetName() })
-			if formatFamilies(list, builtinFamily, "1") == textFams {
+			// the text exposition writes -0 as "0": the sign of a zero is not observable there (the comparison with the model
+			// makes the same allowance)
+			negz := func(x string) string { return strings.ReplaceAll(x, "8000000000000000", "0000000000000000") }
+			if negz(formatFamilies(list, builtinFamily, "1")) == negz(textFams) {
 				pbsame = 1
 			}
 		}
